@@ -248,7 +248,9 @@ def units(tier, seed):
         add('a.T=g(v0,v1).nb2.deep', 'g(v0,v1)', 2, False, {'w0': 0, 'nb': 2}, 300, 'C15.a', deep=True)
         add('b.findall.T=f(v0).nb2.deep', 'f(v0)', 2, True, {'w0': 0, 'nb': 2}, 300, 'C15.b', deep=True)
         for t in LIST_TEMPLATES:
-            add('a.T=%s.nb3.lists' % t, t, 3, False, {'w0': 0, 'nb': 3}, 300, 'C15.a')
+            # the tail is first aliased to another variable (k0 = 0: v0 = v1), then two more bindings in symbolic order
+            for w1 in range(NV):
+                add('a.T=%s.nb3.lists.w1=%d' % (t, w1), t, 3, False, {'w0': 0, 'k0': 0, 'nb': 3, 'w1': w1}, 300, 'C15.a')
     else:
         for t in names:
             add('a.T=%s.nb3.deep' % t, t, 3, False, {'w0': 0}, 1500, 'C15.a', deep=True)
